@@ -95,6 +95,32 @@ def shaping_features(G):
     return f
 
 
+def forest_phase_terminates(ctx, text, lexer, opts, w):
+    from lark.parsers.earley_forest import ForestVisitor
+    st, lf = build(ctx, text, parser='earley', lexer=lexer, ambiguity='forest', **opts)
+    if st != 'ok':
+        return False
+    out = call(ctx, 'parse', lf.parse, w, raw=True)
+    if out[0] != 'ok':
+        return False
+
+    class Count(ForestVisitor):
+        def __init__(self):
+            super().__init__()
+            self.n = 0
+
+        def visit_symbol_node_in(self, node):
+            self.n += 1
+            return node.children
+
+        def visit_packed_node_in(self, node):
+            self.n += 1
+            return node.left, node.right
+    v = Count()
+    r = call(ctx, 'forest-walk', v.visit, out[1], raw=True)
+    return r[0] == 'ok'
+
+
 def run_case(ctx, G, text, rg, l, lexer, opts, w, family, cyclic, named):
     case = {'grammar': G, 'lexer': lexer, 'opts': opts, 'input': w, 'family': family}
     member, inp = c01_model(rg, lexer, w)
@@ -117,8 +143,16 @@ def run_case(ctx, G, text, rg, l, lexer, opts, w, family, cyclic, named):
         ctx.inconc('wall guard', case)
         return
     if out[0] == 'budget':
-        ctx.violation('no-termination-within-step-budget', case, {'budget': out[1]})
         ctx.judged([text, lexer, opts, w], True)
+        if cyclic and forest_phase_terminates(ctx, text, lexer, opts, w):
+            # the parse proper (chart + forest) ends and a walk over the forest ends: what does not fit the budget is the
+            # multiplication of the alternatives into explicit trees, whose number is exponential for cyclic grammars
+            # (61 forest nodes kept the tree builder busy for minutes in the thorough tier).  A step budget cannot tell
+            # "exponentially many trees" from "never": counted, not judged.  A hang of the parser or of the forest walk
+            # itself is still a violation (and C20 walks every forest).
+            ctx.count('cyclic:explicit-trees-exceed-budget-while-forest-and-walk-terminate(not judged)')
+            return
+        ctx.violation('no-termination-within-step-budget', case, {'budget': out[1]})
         return
     if out[0] == 'exc':
         ctx.violation('exception-on-member', case, {'exc': out[1]})
